@@ -652,6 +652,9 @@ func (rn *runner) afterWorld(c *Case) {
 func (rn *runner) gate(c *Case) bool {
 	seq := rn.seq
 	rn.seq++
+	if rn.cfg.EmitOut == "" && rn.cfg.StopAt == 0 && evid.FastStopRequested() {
+		rn.stop = true
+	}
 	if !rn.envRead {
 		rn.envRead, rn.envNames = true, evid.EnvNames()
 	}
@@ -789,6 +792,7 @@ func (rn *runner) report(c *Case, vs []verdict) {
 	}
 	raw, _ := json.Marshal(rec)
 	rn.st.Violations = append(rn.st.Violations, evid.Violation{Property: rn.cfg.Prop, Signature: v.sig, What: v.what, Case: raw, Seq: rn.seq - 1, W: rn.cfg.W})
+	evid.FastStopSignal()
 	if len(rn.st.Violations) >= rn.vcap {
 		rn.stop = true
 	}
